@@ -15,7 +15,7 @@ from vf.model import coerce as C, execute as X, validate as V
 PROPERTY = "C04"
 LEVEL = "model_checking"
 ASSUMPTIONS = ["DC1 (integral JSON floats for Int/ID) and DC2 (flat list for nested list) accepted either way"]
-BUDGET_S = {"quick": 120, "thorough": 1800}
+BUDGET_S = {"quick": 600, "thorough": 1800}
 LEVELS = {"quick": 3, "thorough": 3}
 
 
